@@ -660,6 +660,7 @@ def run_check(prop, tier, seed, replay):
             corp = corpus_lines(suite)
             ctp = tp + '.corpus'
             crash = None
+            crash_line = None
             # a suite may be an empty stand-in in this build flavour (e.g. Xen suites in the standard build):
             # then its corpus does not apply here either
             ptp = tp + '.probe'
@@ -697,9 +698,16 @@ def run_check(prop, tier, seed, replay):
                 if crash[1] == -999:
                     hung = True
                 culprit = '%s %s => CRASH rc=%s' % (suite, last or '?', crash[1])
-                all_spec.append((build, suite, culprit))
+                crash_line = (build, suite, culprit)
                 notes.append('harness process died (rc=%s, %s) while running suite %s [%s]: %s'
                              % (crash[1], crash[2].strip()[-200:], suite, build, culprit))
+                if crash[0] == 'gen':
+                    # the buffered output of the crashed run is lost; the cases completed (and flushed) before the
+                    # crash in the announce run are judged like any others - one of them may be the cause of the crash
+                    done = [l for l in open(atp, errors='replace') if not l.startswith('#CASE ') and ' => ' in l]
+                    with open(tp, 'w') as fo:
+                        fo.write(open(ctp).read())
+                        fo.writelines(done)
             res = run_driver(driver, tp)
             lines = [l.rstrip('\n') for l in open(tp)]
             total += len(lines)
@@ -722,6 +730,9 @@ def run_check(prop, tier, seed, replay):
                     all_dis.append((build, suite, l, 'MALFORMED')); bad = True
                 if not bad:
                     agree_ok += 1
+            if crash_line:
+                # after the cases that completed: a failing case that precedes the crash is reported first
+                all_spec.append(crash_line)
             k = max(1, prop['reeval_samples'] // (len(prop['builds']) * len(prop['suites'])))
             idxs = sorted(rnd.sample(range(len(lines)), min(k, len(lines))))
             for i in idxs:
